@@ -160,6 +160,17 @@ func registerIntrinsics(e *Engine) {
 		e.unsupported("nd.Watch needs a non-nil pointer")
 		return nil, true
 	}
+	// escape-analysis hint: the identity (its xor trick on the pointer bits is not modelled)
+	I["internal/abi.NoEscape"] = func(e *Engine, st *State, th *Thread, args []Value, call *ssa.CallCommon) (Value, bool) {
+		return args[0], true
+	}
+	I["internal/bytealg.MakeNoZero"] = func(e *Engine, st *State, th *Thread, args []Value, call *ssa.CallCommon) (Value, bool) {
+		n := args[0].(*smt.Term)
+		if !n.IsConst() {
+			e.unsupported("bytealg.MakeNoZero with symbolic length")
+		}
+		return e.strToSlice(st, Str{IsConst: true, S: string(make([]byte, int(n.Val)))}), true
+	}
 	I[nd+"Depth"] = func(e *Engine, st *State, th *Thread, args []Value, call *ssa.CallCommon) (Value, bool) {
 		return e.i64(uint64(len(th.Frames))), true
 	}
